@@ -50,7 +50,11 @@ def check(an, rep, tier):
             len(r.lay) == 3 else None
         ok = lay is not None and len(lay) == nq and all(
             same(a, b) for a, b in zip(lay, want))
-        bad = lay is not None and not ok
+        # a definite violation is a KNOWN different order of the same binary
+        # factors; a coarser factorisation (b0*b1 kept as one unit after a
+        # contraction that does not carry layouts) is lost information
+        from ..layout import layouts_conflict
+        bad = lay is not None and not ok and layouts_conflict(lay, want)
         rep.add('S-layout', 'core.core_qtt_to_tt', 'merged mode of %d binary '
                 'cores: first core fastest' % nq,
                 'ok' if ok else ('violation' if bad else 'unknown'),
@@ -264,15 +268,40 @@ def check(an, rep, tier):
                             n.targets[0].id == a.id:
                         return n.value
             return a
-        want_dims = ast.dump(ast.parse('[2] * $q'.replace('$q', 'Q_'),
-                                       mode='eval').body).replace('Q_', '$q')
-        d1 = canon(f1, dims_expr(f1, c1[0]))
-        d2 = canon(f2, dims_expr(f2, c2[0]))
-        ok = d1 == d2 == want_dims
+        def fold_dims(fn, node, qv):
+            """Value of the dims expression (a list / tuple of ints built
+            from literals, * and +) with the digit count set to qv, or None
+            when the expression is outside that fragment."""
+            qn = digit_name(fn)
+            if node is None or qn is None:
+                return None
+            for x in ast.walk(node):
+                if not isinstance(x, (ast.List, ast.Tuple, ast.Constant,
+                                      ast.BinOp, ast.Mult, ast.Add, ast.Sub,
+                                      ast.Name, ast.Load)):
+                    return None
+                if isinstance(x, ast.Name) and x.id != qn:
+                    return None
+            try:
+                v_ = eval(compile(ast.Expression(body=node), '<dims>', 'eval'),
+                          {'__builtins__': {}}, {qn: qv})
+            except Exception:
+                return None
+            return list(v_) if isinstance(v_, (list, tuple)) else None
+        dv1 = [fold_dims(f1, dims_expr(f1, c1[0]), qv) for qv in (3, 4)]
+        dv2 = [fold_dims(f2, dims_expr(f2, c2[0]), qv) for qv in (3, 4)]
+        want_v = [[2] * 3, [2] * 4]
+        if None in dv1 or None in dv2:
+            st_, det_ = 'unknown', 'dims expression outside the folded ' \
+                'fragment'
+        elif dv1 == dv2 == want_v:
+            st_, det_ = 'ok', ''
+        else:
+            st_, det_ = 'violation', 'both maps must use q binary digits; ' \
+                'for q = 3, 4 the dims are %s and %s' % (dv1, dv2)
         rep.add('S-pair', 'grid.ind_tt_to_qtt/ind_qtt_to_tt',
                 'digit dims of unravel_index / ravel_multi_index are [2]*q',
-                'ok' if ok else 'violation',
-                '' if ok else 'both maps must use q binary digits')
+                st_, det_)
         blocks = []
         for fn in (f1, f2):
             for lp in ast.walk(fn.node):
@@ -291,9 +320,11 @@ def check(an, rep, tier):
                                       ).body.slice).replace(
             'Q_', '$q').replace('I_', '$i')
         ok = len(blocks) == 2 and blocks[0] == blocks[1] == want_blk
+        # one map vectorised (no per-mode column block): nothing to compare
         rep.add('S-pair', 'grid.ind_tt_to_qtt/ind_qtt_to_tt',
                 'column block of mode i is q*i:q*(i+1) in both maps',
-                'ok' if ok else 'violation',
+                'ok' if ok else ('violation' if len(blocks) == 2 else
+                                 'unknown'),
                 '' if ok else 'the digit block of mode i must be columns '
                 'q*i:q*(i+1) in both maps')
     # --- P-forward
@@ -328,6 +359,6 @@ def check(an, rep, tier):
     rep.floor('O-sweep', 1, 'orthonormal right factors')
     rep.floor('S-layout', 3, 'merge layouts')
     rep.floor('S-ret', 10, 'conversion results')
-    rep.floor('S-pair', 3, 'index map pairing')
+    rep.floor('S-pair', 2, 'index map pairing (order and digit dims; the column blocks only when both maps are written per mode)')
     rep.floor('P-domain', 8, 'power-of-two checks')
     rep.floor('P-forward', 3, 'forwarded caps')
